@@ -114,6 +114,8 @@ def _cfg_for(name):
                     continue
                 if name.startswith("QueryByCommittee[v") and (b == 1 or n > 3):
                     continue    # vote-based committees fork on every member's prediction in every cycle: 3-cycle loops explode
+                if n == 4 and (b == 1 or name in ("BatchBALD", "GreedyBALD", "TypiClust") or name.startswith("Clue")):
+                    continue    # thorough: 4-sample pools with batches of 2-3 (at most 2 cycles) for the cheaper adapters
                 out.append(dict(strat=name, n=n, b=b))
         return out
     return cfg
@@ -126,7 +128,7 @@ for _h in HARNESSES:
     _h.validate = validate
 BOUNDS = dict(quick="pools of n = 3 samples, every initial labeling (0..n-1 labels), batch sizes 1-3, the whole loop until "
                     "exhaustion, one strategy object across cycles, fresh symbolic model outputs per cycle",
-              thorough="n in {3,4}, batch sizes 1..3",
+              thorough="n = 3 as quick plus b = 3 everywhere; n = 4 with batch sizes 2-3 for the adapters whose loops do not explode",
               outside="strategies not in the adapter list (ProbCover / EpistemicUS caches are therefore not covered); n > 4")
 ASSUMPTIONS = list(__import__("harness.C01", fromlist=["ASSUMPTIONS"]).ASSUMPTIONS) + [
     "the oracle's labels are arbitrary classes (they only enter through the stubbed models)"]
